@@ -143,3 +143,10 @@ Fixpoint dict2_set {V : Type} (d : list ((Z * Z) * V)) (k : Z * Z) (v : V) : lis
    modulo with the sign of the divisor, which is what Coq's Z.div / Z.modulo compute *)
 Definition checked_div (tag : Z) (a b : Z) : result Z := if b =? 0 then Err tag else Ok (a / b).
 Definition checked_mod (tag : Z) (a b : Z) : result Z := if b =? 0 then Err tag else Ok (a mod b).
+(* ---- additions for distance_calculation.py (C07 links) ---- *)
+(* a // b and a % b on ints, checked (cfg["zero_division"]): ZeroDivisionError (Err tag) when b = 0; otherwise Coq's
+   floor division / modulo (remainder with the sign of the divisor), which is Python's for every sign *)
+Definition z_floordiv (tag a b : Z) : result Z := if b =? 0 then Err tag else Ok (a / b).
+Definition z_mod (tag a b : Z) : result Z := if b =? 0 then Err tag else Ok (a mod b).
+(* truth value of an Optional[int]: None and 0 are false *)
+Definition opt_int_truthy (o : option Z) : bool := match o with Some n => negb (n =? 0) | None => false end.
